@@ -388,6 +388,11 @@ def run(ctx):
         mu = check_trend(ctx, fn, X)
         check_sigma(ctx, fn, X, mu)
     check_lib(ctx)
+    from .C07 import _Relabel
+    from .C09 import check_fcm
+    ctx.rule("C11-KPRIOR", "the K prior of the MCMC model is the distribution whose scale the kernel reproduces: sigma = clip(sigma_K0 (P/P0)^(-1/3) / sqrt(1 - e^2), 0, max_K) "
+                           "(shared with C09-FCM; the kernel side is C01-KVAR).")
+    check_fcm(_Relabel(ctx, {"C09-FCM": "C11-KPRIOR"}))
     check_init(ctx, fn, X)
     ctx.assume("twobody / the kernel evaluate K (cos(omega + f) + e cos omega) with M = 2 pi (t - t_ref)/P - M0 (library summary); pymc's Normal logp is the Gaussian log-density")
     ctx.assume("units.to_unit multiplies by base.to(target) (thejoker/units.py, checked by C07-TOUNIT)")
